@@ -152,6 +152,10 @@ def _prior_sample_shape(shape, res, sink):
         rec["draw_seed"] = random_seed
         rec["draws"] = draws
         rec.setdefault("orders", []).append([v.name for v in vars])
+        rec.setdefault("seeds", []).append(random_seed)
+        if int(draws) > 1000:
+            # a very large request: the values do not matter for the claims made (which generator, how many draw calls)
+            return [symnp.zeros((int(draws),)) for _ in vars]
         return [symnp.SymArray(symnp._obj([core.fresh("real", "d") for _ in range(int(draws))]), symnp._F8) for _ in vars]
     pm.draw = draw
 
@@ -174,6 +178,7 @@ def _prior_sample_shape(shape, res, sink):
     def harness():
         w.reset()
         rec["orders"] = []
+        rec["seeds"] = []
         p = object.__new__(JP)
         names = ["P", "e", "omega", "M0", "s", "K", "v0", "v1", "dv0_1"]
         kms = units.km / units.s
@@ -194,6 +199,10 @@ def _prior_sample_shape(shape, res, sink):
         seed2 = rec.get("draw_seed")
         s3 = p.sample(size=2, generate_linear=True, rng=rng)
         seed3 = rec.get("draw_seed")
+        # a request far beyond any internal block size still is ONE draw from the caller's generator
+        n0 = len(rec["seeds"])
+        p.sample(size=70000, rng=rng)
+        rec["big_ok"] = len(rec["seeds"]) == n0 + 1 and rec["seeds"][-1] is rng
         # a call that fails inside the draw must leave numpy's global random machinery as it found it
         g0 = st.np.random.get_bit_generator()
         rec["fail_next"] = True
@@ -217,6 +226,8 @@ def _prior_sample_shape(shape, res, sink):
         rng, s1, s2, orders, cols = path.result
         sink.check(path, "prior_sample_forwards_rng", core.SB(z3.BoolVal(s1 is rng and s2 is rng and not w.global_random_touched)),
                    site="JokerPrior.sample", describe=lambda m: {"seed_passed": repr(s1)[:80]})
+        sink.check(path, "large_request_is_one_draw_from_the_generator", core.SB(z3.BoolVal(bool(rec.get("big_ok")))), site="JokerPrior.sample.large",
+                   describe=lambda m: {"draw_calls_for_size_70000": [repr(x)[:40] for x in rec.get("seeds", [])[-3:]]})
         sink.check(path, "global_bit_generator_restored_after_failure", core.SB(z3.BoolVal(bool(rec.get("global_restored")))), site="JokerPrior.sample.failure",
                    describe=lambda m: {"events": [list(map(str, e)) for e in w.log if e[0] == "set_bit_generator"][:4]})
         # the order in which the variables are handed to pm.draw fixes which sub-stream each one gets: it must not depend on
@@ -283,6 +294,10 @@ def replay(cand):
             b = prior.sample(size=8, rng=np.random.default_rng(7))
             if not all(np.array_equal(a[k].value, b[k].value) for k in a.par_names):
                 bad.append("prior.sample(rng=seed 7) is not reproducible")
+            # a large seeded request: no row may be an exact copy of another
+            big = prior.sample(size=70000, rng=np.random.default_rng(7))
+            if len(np.unique(big["P"].value)) != 70000 or len(np.unique(big["M0"].value)) != 70000:
+                bad.append("prior.sample(size=70000, rng=...) contains exact copies of earlier rows (%d distinct periods)" % len(np.unique(big["P"].value)))
             # a failing call must not leave numpy's global generator swapped
             g0 = np.random.get_bit_generator()
             st0 = np.random.get_state()[1].copy()
